@@ -17,7 +17,12 @@ KEYPOOL = ["alpha", "beta", "gamma", "delta", "eps", "zeta", "eta", "theta", "io
            "under_score", "CamelCase", "UPPER", "z9", "q", "w", "port2", "host2", "mode2", "lvl", "db", "http", "auth",
            # names that coincide with document-level names of the formats (XML root tags, YAML root keys, XML item tags)
            "config", "cfg", "k0", "item"]
-WILD = [None, True, False, 0, 1, -1, 2, 1.5, 0.0, float("nan"), float("inf"), "", "x", " ", "1", "true", "abc", b"", b"xy",
+import collections as _collections
+import types as _types
+
+# mappings that are not dicts (an untyped dict field stores what it accepts as it is)
+NOT_A_DICT = [_collections.UserDict({"k": "v"}), _collections.ChainMap({"a": 1}, {"b": 2}), _collections.UserDict()]
+WILD = NOT_A_DICT + [None, True, False, 0, 1, -1, 2, 1.5, 0.0, float("nan"), float("inf"), "", "x", " ", "1", "true", "abc", b"", b"xy",
         [], [1], ["a"], {}, {"a": 1}, (1, 2), (), Opaque(), 10**30, 2**31, -2**63, "tk00aa", 1e300, [None], {"a": None}]
 SCALAR_FAMILIES = ["str", "loglevel", "appmode", "int", "float", "port", "bool", "ipv4", "net", "host", "url", "file",
                    "bytes", "secure", "challenge", "any"]
@@ -288,6 +293,8 @@ def _list_value(rng, f, env):
 
 
 def _dict_value(rng, f, env):
+    if rng.random() < 0.08:
+        return rng.choice(NOT_A_DICT)
     if rng.random() < 0.12:
         return rng.choice(WILD)
     kf, vf = f.get("keyf"), f.get("valf")
